@@ -160,6 +160,11 @@ func (h *vHBase) SendRPC(rpc hrpc.Call) (proto.Message, error) {
 	} else {
 		var idx int
 		s, idx = h.find(req.GetScannerId())
+		// the client routes every request by its key: a scanner id means something only to
+		// the server of the region that the request's start row falls into
+		if s != nil && h.regionOf(scan.Key()) != s.reg {
+			s = nil
+		}
 		if s == nil {
 			if req.GetCloseScanner() {
 				return &pb.ScanResponse{}, nil
